@@ -1,6 +1,7 @@
 package core
 
 import (
+	"bytes"
 	"encoding/binary"
 	"encoding/json"
 	"flag"
@@ -44,6 +45,7 @@ type ReplayFile struct {
 	RepoHead string   `json:"repo_head"`
 	Dirty    bool     `json:"repo_dirty"`
 	Shrunk   string   `json:"shrunk"`
+	Fatal    bool     `json:"fatal,omitempty"` // the run kills or stalls its process: replayed in a child process
 }
 
 // workerOut is what a worker hands back to the coordinator.
@@ -81,6 +83,7 @@ func runOne(p Property, seed uint64, i int, enumerated bool) (Result, []uint64) 
 	}
 	tp := tape.New(SeedFor(seed, p.ID(), i))
 	r := p.Run(tp)
+	testCrash(p.ID(), i, 0)
 	return r, tp.Recorded()
 }
 
@@ -94,22 +97,39 @@ func Shrink(p Property, entries []uint64, clause string, maxTries int) ([]uint64
 	deadline := time.Now().Add(3 * time.Minute)
 	Shrinking = true
 	defer func() { Shrinking = false }()
+	more := func() bool { return tries < maxTries && time.Now().Before(deadline) }
 	fails := func(e []uint64) bool {
-		if tries >= maxTries || time.Now().After(deadline) {
+		if !more() {
 			return false
 		}
 		tries++
+		if curProgress != nil {
+			curProgress.beat()
+		}
 		r := p.Run(tape.Replay(e))
 		if r.Violation != nil && r.Violation.Clause == clause {
 			return true
 		}
 		return false
 	}
-	cur := append([]uint64(nil), entries...)
-	if !fails(cur) {
+	if !fails(entries) {
 		// not reproducible from the recorded tape: report as is
 		return entries, Result{}, tries
 	}
+	cur := shrinkCore(entries, fails, more)
+	// final confirmation run
+	Shrinking = false
+	r := p.Run(tape.Replay(cur))
+	if r.Violation == nil || r.Violation.Clause != clause {
+		return entries, Result{}, tries
+	}
+	return cur, r, tries
+}
+
+// shrinkCore minimises a failing tape: truncate, delete blocks, zero blocks, lower entries.
+// fails must be true for entries on entry; more reports whether the budget allows another pass.
+func shrinkCore(entries []uint64, fails func([]uint64) bool, more func() bool) []uint64 {
+	cur := append([]uint64(nil), entries...)
 	trim := func() {
 		for len(cur) > 0 && cur[len(cur)-1] == 0 {
 			cur = cur[:len(cur)-1]
@@ -117,7 +137,7 @@ func Shrink(p Property, entries []uint64, clause string, maxTries int) ([]uint64
 	}
 	trim()
 	improved := true
-	for improved && tries < maxTries {
+	for improved && more() {
 		improved = false
 		// truncate tail
 		for n := len(cur) / 2; n >= 1; n /= 2 {
@@ -185,13 +205,7 @@ func Shrink(p Property, entries []uint64, clause string, maxTries int) ([]uint64
 		}
 		trim()
 	}
-	// final confirmation run
-	Shrinking = false
-	r := p.Run(tape.Replay(cur))
-	if r.Violation == nil || r.Violation.Clause != clause {
-		return entries, Result{}, tries
-	}
-	return cur, r, tries
+	return cur
 }
 
 func writeReplay(p Property, seed uint64, run int, enumerated bool, entries []uint64, r Result, shrunk string) string {
@@ -202,16 +216,20 @@ func writeReplay(p Property, seed uint64, run int, enumerated bool, entries []ui
 	if enumerated {
 		rf.Case = run
 	}
+	return writeReplayFile(rf)
+}
+
+func writeReplayFile(rf ReplayFile) string {
 	dir := filepath.Join(VerifDir, "replays")
 	if d := os.Getenv("SIMCALC_REPLAYDIR"); d != "" {
 		dir = d
 	}
 	os.MkdirAll(dir, 0o755)
-	kind := "r"
-	if enumerated {
-		kind = "c"
+	kind, n := "r", rf.Run
+	if rf.Case >= 0 {
+		kind, n = "c", rf.Case
 	}
-	path := filepath.Join(dir, fmt.Sprintf("%s-%d-%s%d.json", p.ID(), seed, kind, run))
+	path := filepath.Join(dir, fmt.Sprintf("%s-%d-%s%d.json", rf.Property, rf.Seed, kind, n))
 	b, _ := json.MarshalIndent(rf, "", " ")
 	if err := os.WriteFile(path, b, 0o644); err != nil {
 		fmt.Fprintln(os.Stderr, "cannot write replay:", err)
@@ -220,8 +238,10 @@ func writeReplay(p Property, seed uint64, run int, enumerated bool, entries []ui
 }
 
 // worker executes the run indices congruent to w mod n.
-func worker(p Property, tier Tier, seed uint64, w, n int, outPath string, runsOverride int) {
+func worker(p Property, tier Tier, seed uint64, w, n int, outPath string, runsOverride int, skip map[string]bool) {
 	start := time.Now()
+	prog := openProgress(outPath + ".prog")
+	curProgress = prog
 	out := workerOut{Stats: map[string]int{}, Discards: map[string]int{}}
 	keys := map[uint64]struct{}{}
 	inter := map[uint64]struct{}{}
@@ -231,6 +251,10 @@ func worker(p Property, tier Tier, seed uint64, w, n int, outPath string, runsOv
 	}
 	maxViol := 3
 	do := func(i int, enumerated bool) bool {
+		if skip[skipKey(i, enumerated)] {
+			return true // this run killed or stalled an earlier incarnation of this worker; the coordinator reported it
+		}
+		prog.begin(i, enumerated)
 		r, entries := runOne(p, seed, i, enumerated)
 		out.Evaluations++
 		out.Statements += int64(r.Statements)
@@ -259,6 +283,11 @@ func worker(p Property, tier Tier, seed uint64, w, n int, outPath string, runsOv
 		if r.Violation != nil {
 			shr := "not shrunk (enumerated case)"
 			if !enumerated {
+				// The unshrunk replay is on disk before minimisation starts: a candidate history that
+				// kills this process must not lose the violation (the coordinator picks up <out>.pending).
+				first := writeReplay(p, seed, i, enumerated, entries, r, "unshrunk: minimisation was cut short because a candidate history killed or stalled the worker process")
+				pb, _ := json.Marshal(map[string]string{"path": first, "clause": r.Violation.Clause})
+				os.WriteFile(outPath+".pending", pb, 0o644)
 				before := len(entries)
 				small, rr, tries := Shrink(p, entries, r.Violation.Clause, 3000)
 				if rr.Violation != nil {
@@ -269,6 +298,7 @@ func worker(p Property, tier Tier, seed uint64, w, n int, outPath string, runsOv
 				}
 			}
 			path := writeReplay(p, seed, i, enumerated, entries, r, shr)
+			os.Remove(outPath + ".pending")
 			out.Violations = append(out.Violations, path)
 			out.Clauses = append(out.Clauses, r.Violation.Clause)
 			if len(out.Violations) >= maxViol {
@@ -292,6 +322,7 @@ func worker(p Property, tier Tier, seed uint64, w, n int, outPath string, runsOv
 			}
 		}
 	}
+	prog.idle()
 	out.NonTrivial = len(keys)
 	out.KeysFile = outPath + ".keys"
 	out.InterFile = outPath + ".inter"
@@ -303,6 +334,13 @@ func worker(p Property, tier Tier, seed uint64, w, n int, outPath string, runsOv
 		fmt.Fprintln(os.Stderr, "worker cannot write result:", err)
 		os.Exit(ExitTrouble)
 	}
+}
+
+func skipKey(i int, enumerated bool) string {
+	if enumerated {
+		return "c" + strconv.Itoa(i)
+	}
+	return "r" + strconv.Itoa(i)
 }
 
 func writeSet(path string, set map[uint64]struct{}) {
@@ -363,64 +401,137 @@ func Check(p Property, tier Tier, seed uint64, workers int, runsOverride int) in
 		return ExitTrouble
 	}
 	defer os.RemoveAll(tmp)
-	type proc struct {
-		cmd *exec.Cmd
-		out string
+	type slot struct {
+		out      string
+		trouble  bool
+		fatal    []string // replay paths of runs that killed or stalled the worker
+		fclauses []string
 	}
-	procs := make([]proc, workers)
-	for w := 0; w < workers; w++ {
-		outPath := filepath.Join(tmp, fmt.Sprintf("w%d.json", w))
-		args := []string{"-prop", p.ID(), "-tier", string(tier), "-seed", strconv.FormatUint(seed, 10),
-			"-worker", fmt.Sprintf("%d/%d", w, workers), "-out", outPath}
-		if runsOverride > 0 {
-			args = append(args, "-runs", strconv.Itoa(runsOverride))
-		}
-		cmd := exec.Command(self, args...)
-		cmd.Stdout = os.Stderr
-		cmd.Stderr = os.Stderr
-		cmd.Env = append(os.Environ(), "GOMAXPROCS=2")
-		if err := cmd.Start(); err != nil {
-			fmt.Fprintln(os.Stderr, "cannot start worker:", err)
-			return ExitTrouble
-		}
-		procs[w] = proc{cmd, outPath}
-	}
+	slots := make([]*slot, workers)
 	watchdog := 2 * time.Hour
 	if tier == Quick {
 		watchdog = 20 * time.Minute
 	}
-	done := make(chan error, workers)
-	for _, pr := range procs {
-		pr := pr
-		go func() { done <- pr.cmd.Wait() }()
+	deadline := time.Now().Add(watchdog)
+	done := make(chan int, workers)
+	for w := 0; w < workers; w++ {
+		sl := &slot{out: filepath.Join(tmp, fmt.Sprintf("w%d.json", w))}
+		slots[w] = sl
+		go func(w int, sl *slot) {
+			defer func() { done <- w }()
+			var skips []string
+			for attempt := 0; ; attempt++ {
+				args := []string{"-prop", p.ID(), "-tier", string(tier), "-seed", strconv.FormatUint(seed, 10),
+					"-worker", fmt.Sprintf("%d/%d", w, workers), "-out", sl.out}
+				if runsOverride > 0 {
+					args = append(args, "-runs", strconv.Itoa(runsOverride))
+				}
+				if len(skips) > 0 {
+					args = append(args, "-skip", strings.Join(skips, ","))
+				}
+				os.Remove(sl.out + ".prog")
+				cmd := exec.Command(self, args...)
+				cmd.Stdout = os.Stderr
+				werrb := &bytes.Buffer{}
+				cmd.Stderr = &limitedWriter{w: werrb, n: 1 << 16} // crash dumps are reproduced and summarised by attributeCrash
+				if os.Getenv("SIMCALC_WORKER_STDERR") != "" {
+					cmd.Stderr = os.Stderr
+				}
+				cmd.Env = append(os.Environ(), "GOMAXPROCS=2", "GOTRACEBACK=single")
+				if err := cmd.Start(); err != nil {
+					fmt.Fprintln(os.Stderr, "cannot start worker:", err)
+					sl.trouble = true
+					return
+				}
+				exited := make(chan error, 1)
+				go func() { exited <- cmd.Wait() }()
+				var werr error
+				hung := false
+				lastBeat, lastChange := uint64(0), time.Now()
+			wait:
+				for {
+					select {
+					case werr = <-exited:
+						break wait
+					case <-time.After(3 * time.Second):
+						if time.Now().After(deadline) {
+							cmd.Process.Kill()
+							<-exited
+							fmt.Fprintln(os.Stderr, "watchdog: worker exceeded", watchdog)
+							sl.trouble = true
+							return
+						}
+						_, _, beat, _ := readProgress(sl.out + ".prog")
+						if beat != lastBeat {
+							lastBeat, lastChange = beat, time.Now()
+						} else if time.Since(lastChange) > 2*childStall {
+							cmd.Process.Kill()
+							werr = <-exited
+							hung = true
+							break wait
+						}
+					}
+				}
+				if werr == nil && !hung {
+					return
+				}
+				i, enumerated, _, ok := readProgress(sl.out + ".prog")
+				if pb, perr := os.ReadFile(sl.out + ".pending"); perr == nil && ok {
+					var pend map[string]string
+					if json.Unmarshal(pb, &pend) == nil && pend["path"] != "" {
+						os.Remove(sl.out + ".pending")
+						fmt.Fprintf(os.Stderr, "worker %d died or stalled while minimising the violation of run %s; reporting it unshrunk\n", w, skipKey(i, enumerated))
+						sl.fatal = append(sl.fatal, pend["path"])
+						sl.fclauses = append(sl.fclauses, pend["clause"])
+						skips = append(skips, skipKey(i, enumerated))
+						if len(sl.fatal) >= 2 {
+							os.WriteFile(sl.out, []byte(`{"stats":{},"discards":{}}`), 0o644)
+							return
+						}
+						continue
+					}
+				}
+				if !ok {
+					fmt.Fprintf(os.Stderr, "worker %d failed outside any run: %v\n%s\n", w, werr, trimTo(werrb.String(), 4000))
+					sl.trouble = true
+					return
+				}
+				fmt.Fprintf(os.Stderr, "worker %d died or stalled (%v, stalled=%v) in run %s; re-executing that run alone\n", w, werr, hung, skipKey(i, enumerated))
+				path, clause := attributeCrash(self, p, seed, i, enumerated, tmp, hung)
+				if path == "" {
+					fmt.Fprintf(os.Stderr, "run %s completes in a fresh process: the worker failure is not attributable to one run (machinery trouble, no verdict)\n", skipKey(i, enumerated))
+					sl.trouble = true
+					return
+				}
+				sl.fatal = append(sl.fatal, path)
+				sl.fclauses = append(sl.fclauses, clause)
+				skips = append(skips, skipKey(i, enumerated))
+				if len(sl.fatal) >= 2 {
+					// enough evidence from this slot; finish its remaining indices is pointless on a tree this broken
+					os.WriteFile(sl.out, []byte(`{"stats":{},"discards":{}}`), 0o644)
+					return
+				}
+			}
+		}(w, sl)
 	}
-	trouble := false
-	timer := time.NewTimer(watchdog)
 	for i := 0; i < workers; i++ {
-		select {
-		case err := <-done:
-			if err != nil {
-				fmt.Fprintln(os.Stderr, "worker failed:", err)
-				trouble = true
-			}
-		case <-timer.C:
-			fmt.Fprintln(os.Stderr, "watchdog: workers exceeded", watchdog)
-			for _, pr := range procs {
-				pr.cmd.Process.Kill()
-			}
+		<-done
+	}
+	var fatalPaths, fatalClauses []string
+	for _, sl := range slots {
+		if sl.trouble {
 			return ExitTrouble
 		}
-	}
-	if trouble {
-		return ExitTrouble
+		fatalPaths = append(fatalPaths, sl.fatal...)
+		fatalClauses = append(fatalClauses, sl.fclauses...)
 	}
 
 	// 3. merge
 	agg := workerOut{Stats: map[string]int{}, Discards: map[string]int{}}
 	keys := map[uint64]struct{}{}
 	inter := map[uint64]struct{}{}
-	for _, pr := range procs {
-		b, err := os.ReadFile(pr.out)
+	for _, sl := range slots {
+		b, err := os.ReadFile(sl.out)
 		if err != nil {
 			fmt.Fprintln(os.Stderr, "missing worker result:", err)
 			return ExitTrouble
@@ -448,6 +559,11 @@ func Check(p Property, tier Tier, seed uint64, workers int, runsOverride int) in
 		agg.TraceSum += wo.TraceSum
 		readSet(wo.KeysFile, keys)
 		readSet(wo.InterFile, inter)
+	}
+	agg.Violations = append(agg.Violations, fatalPaths...)
+	agg.Clauses = append(agg.Clauses, fatalClauses...)
+	if len(fatalPaths) > 0 {
+		agg.Stats["crash.runs_that_killed_or_stalled_their_process"] += len(fatalPaths)
 	}
 	if len(agg.Samples) > 4 {
 		agg.Samples = agg.Samples[:4]
@@ -552,6 +668,9 @@ func Replay(path string) int {
 		fmt.Fprintln(os.Stderr, "unknown property", rf.Property)
 		return ExitTrouble
 	}
+	if rf.Fatal {
+		return replayFatal(rf, path)
+	}
 	var r Result
 	switch {
 	case rf.Script != nil:
@@ -590,6 +709,11 @@ func Main(setupWorker func()) {
 	workers := flag.Int("workers", 0, "worker processes (default min(16, NumCPU))")
 	selftest := flag.Bool("selftest", false, "determinism selftest")
 	list := flag.Bool("list", false, "list properties")
+	single := flag.Int("single", -1, "run one index alone, journalled (internal)")
+	enumF := flag.Bool("enum", false, "with -single: the index is an enumerated case (internal)")
+	journal := flag.String("journal", "", "journal base path (internal)")
+	childTape := flag.String("childtape", "", "execute the tape in this file (internal)")
+	skipF := flag.String("skip", "", "comma-separated run keys to skip (internal)")
 	flag.Parse()
 
 	if *list {
@@ -638,6 +762,16 @@ func Main(setupWorker func()) {
 		fmt.Fprintln(os.Stderr, "unknown property:", *prop)
 		os.Exit(ExitTrouble)
 	}
+	if *single >= 0 {
+		setupWorker()
+		SingleMain(p, seed, *single, *enumF, *journal)
+		return
+	}
+	if *childTape != "" {
+		setupWorker()
+		TapeMain(p, *childTape, *journal)
+		return
+	}
 	if *workerF != "" {
 		var w, n int
 		if _, err := fmt.Sscanf(*workerF, "%d/%d", &w, &n); err != nil || n <= 0 {
@@ -645,7 +779,13 @@ func Main(setupWorker func()) {
 			os.Exit(ExitTrouble)
 		}
 		setupWorker()
-		worker(p, Tier(*tier), seed, w, n, *outF, *runs)
+		skip := map[string]bool{}
+		for _, k := range strings.Split(*skipF, ",") {
+			if k != "" {
+				skip[k] = true
+			}
+		}
+		worker(p, Tier(*tier), seed, w, n, *outF, *runs, skip)
 		return
 	}
 	setupWorker() // the coordinator replays known findings in-process
